@@ -246,7 +246,65 @@ def gd7(facts, rep):
             rep.bad(rule, key, '%s:%s' % (sg.file, sg.line), 'no `i < self.smallints.len()` guard')
 
 
+def mk1(facts, rep):
+    from .eng_ri import uses_of_locals
+    rule = 'MK-1'
+    rep.rule(rule, 'masking sibling agreement: every BitEnc method that stores a caller-supplied value widens it with '
+                   'u32::from(value) and must combine that word with `& self.mask` before it reaches storage (set_by_addr does; '
+                   'push_values builds whole blocks itself) - an unmasked value spills into the neighbouring slots and differs '
+                   'from what push/set would have stored')
+    n = 0
+    for b in facts.body_list:
+        if b.raw.get('impl_adt') != BE or b.raw.get('impl_trait'):
+            continue
+        for bb, t in b.calls():
+            info = call_info(t)
+            if not info or not info['fn'].endswith('From::from') or 'u32' not in (info.get('args') or [''])[0]:
+                continue
+            a0 = strip(b.expr_operand(t['args'][0], inline_user=True))
+            if not (a0[0] == 'local' and 2 <= a0[1] <= b.arg_count and b.locals[a0[1]]['ty'] == 'u8'):
+                continue
+            n += 1
+            rep.analysed_body(b)
+            key = '%s|value-masked-to-width' % b.path
+            d = t['dest']['l']
+            uses = uses_of_locals(b)
+            masked = False
+            unmasked_use = None
+            work = [d]
+            seen = set()
+            while work:
+                l = work.pop()
+                if l in seen:
+                    continue
+                seen.add(l)
+                for (kind, ubb, x) in uses.get(l, []):
+                    if kind != 'stmt':
+                        unmasked_use = unmasked_use or b.loc(ubb)
+                        continue
+                    st = b.stmts(ubb)[x]
+                    if st['k'] != 'assign':
+                        continue
+                    r = st['r']
+                    if r['k'] == 'bin' and r['op'] == 'BitAnd':
+                        other = r['b'] if (r['a'].get('c') or r['a'].get('m') or {}).get('l') == l else r['a']
+                        if fmt(strip(b.expr_operand(other, inline_user=True))) == 'self.mask':
+                            masked = True
+                            continue
+                    if r['k'] == 'use' and 'pj' not in st['p']:
+                        work.append(st['p']['l'])
+                        continue
+                    unmasked_use = unmasked_use or b.loc(ubb, x)
+            if masked and unmasked_use is None:
+                rep.ok(rule, key, b.loc(bb), 'u32::from(value) & self.mask')
+            else:
+                rep.bad(rule, key, unmasked_use or b.loc(bb), 'the widened value is used without `& self.mask`: bits above the '
+                                                              'encoding width leak into the block')
+    rep.floor(rule, 'methods widening a caller-supplied value', n, 2)
+
+
 def run(facts, rep, ctx):
+    mk1(facts, rep)
     uc1(facts, rep)
     sb5(facts, rep)
     gd7(facts, rep)
